@@ -80,6 +80,24 @@ fn check_error_contract(spec: &CmdSpec, e: &ErrObs) -> Vec<(String, String)> {
     longs.insert("help".into());
     longs.insert("version".into());
     subs.insert("help".into());
+    // the closing hint "For more information, try '<X>'." must point at something that exists
+    // (both settings are propagated to every level, so the whole tree can be judged at once)
+    if let Some(p) = e.rendered.find("For more information, try '") {
+        let rest = &e.rendered[p + "For more information, try '".len()..];
+        let hint = rest.split('\'').next().unwrap_or("");
+        fn any_long_help(c: &CmdSpec) -> bool {
+            c.args.iter().any(|a| a.long.as_deref() == Some("help") || a.short == Some('h')) || c.subs.iter().any(any_long_help)
+        }
+        fn any_sub_help(c: &CmdSpec) -> bool {
+            c.subs.iter().any(|s| s.name == "help" || any_sub_help(s))
+        }
+        if (hint == "--help" || hint == "-h") && spec.has(Setting::DisableHelpFlag) && !any_long_help(spec) {
+            bad.push(("the error's closing hint names a help flag that does not exist".into(), format!("try '{}'", hint)));
+        }
+        if hint == "help" && spec.has(Setting::DisableHelpSubcommand) && !any_sub_help(spec) {
+            bad.push(("the error's closing hint names a help subcommand that does not exist".into(), format!("try '{}'", hint)));
+        }
+    }
     for (k, v) in &e.context {
         let items: Vec<&str> = v.split('\u{1f}').filter(|s| !s.is_empty()).collect();
         match k.as_str() {
